@@ -19,7 +19,7 @@ func init() {
 		Decides: "(transfer half only) on the receiver every hand-over of chunk bytes to a part handler, and every advance of an expected-chunk counter, happens only on the checksum-match outcome — a chunk answered with a rejection status must not count as progress; sender and receiver compute the checksum the same way; only processExpectedChunk drives the handlers and it is entered only for the expected index; " +
 			"a received part is introduced only by FinishSync, after its metadata is written, and an abnormal end of the stream (deferred cleanup) can close but never finalize a part; Close of an unfinished context removes the partial directory and releases the segment; the sender reports failed parts with the same id format on the initial and the retry path and sends the sync introduction only after the transfer succeeded; the liaison's mem-part merge empties its group accumulator whenever the segment id changes (parts of two time segments are never merged into one shipped part).",
 		NotDecided: "cluster/standalone query equivalence, shard/segment attribution of rows end to end, receiver restarts, idempotence of re-processing after SERVER_BUSY.",
-		Technique:  "guarded-call / world pruning on the checksum comparison, interprocedural acceptance summary over status constants, who-may-call, static reachability from deferred cleanup, sibling agreement of formatting callees",
+		Technique:  "guarded-call / world pruning on the checksum comparison, interprocedural acceptance summary over status constants, who-may-call, static reachability from deferred cleanup, sibling agreement of formatting callees; must-reset between a group-change test and the next append",
 		Run:        runC17,
 	})
 }
